@@ -84,6 +84,86 @@ pub const ALL_RULES: [Rule; 34] = [
     Rule::AssignWrongType,
 ];
 
+
+macro_rules! concat_jt {
+    ($body:expr) => {
+        concat!("pub fn main(a: [(u8, u16); 2], b: [(u8, bool); 2], k: [u8; 2], w: [(u16, u8); 2], x: u8) -> u8 {\n", $body)
+    };
+}
+pub const ILL_TYPED_TEXTS: &[(&str, &str)] = &[
+    ("const bool for u8", "const A: u8 = true;\npub fn main(x: u8) -> u8 {\n  x + A\n}\n"),
+    ("const number for bool", "const A: bool = 1u8;\npub fn main(x: u8) -> u8 {\n  if A { x } else { 0u8 }\n}\n"),
+    ("const u16 literal for u8", "const A: u8 = 1u16;\npub fn main(x: u8) -> u8 {\n  x + A\n}\n"),
+    ("const signed literal for unsigned", "const A: u8 = -1i8;\npub fn main(x: u8) -> u8 {\n  x + A\n}\n"),
+    ("const refers to const of another type", "const B: u16 = 5u16;\nconst A: u8 = B;\npub fn main(x: u8) -> u8 {\n  x + A\n}\n"),
+    ("const max over another type", "const B: u16 = 5u16;\nconst A: u8 = max(B, 1u8);\npub fn main(x: u8) -> u8 {\n  x + A\n}\n"),
+    ("const sum with bool", "const A: u8 = 1u8 + true;\npub fn main(x: u8) -> u8 {\n  x + A\n}\n"),
+    ("const external of declared type used at another", "const A: u16 = P::A;\npub fn main(x: u8) -> u8 {\n  x + A\n}\n"),
+    ("array size is a u8 const", "const N: u8 = 2u8;\npub fn main(x: u8) -> [u8; N] {\n  [x; N]\n}\n"),
+    ("array size is a variable", "pub fn main(x: u8, n: usize) -> u8 {\n  let a = [x; n];\n  a[0]\n}\n"),
+    ("array size is unknown", "pub fn main(x: u8) -> u8 {\n  let a = [x; NOPE];\n  a[0]\n}\n"),
+    ("array type size unknown const", "pub fn main(x: [u8; NOPE]) -> u8 {\n  x[0]\n}\n"),
+    ("tuple index out of range", "pub fn main(x: u8) -> u8 {\n  let t = (x, true);\n  t.2\n}\n"),
+    ("tuple access on number", "pub fn main(x: u8) -> u8 {\n  x.0\n}\n"),
+    ("field access on number", "pub fn main(x: u8) -> u8 {\n  x.f\n}\n"),
+    ("field access on tuple", "pub fn main(x: u8) -> u8 {\n  let t = (x, x);\n  t.f\n}\n"),
+    ("index into number", "pub fn main(x: u8) -> u8 {\n  x[0]\n}\n"),
+    ("index assignment into number", "pub fn main(x: u8) -> u8 {\n  let mut y = x;\n  y[0] = 1u8;\n  y\n}\n"),
+    ("tuple assignment out of range", "pub fn main(x: u8) -> u8 {\n  let mut t = (x, x);\n  t.2 = 1u8;\n  t.0\n}\n"),
+    ("field assignment unknown field", "struct S { a: u8 }\npub fn main(x: u8) -> u8 {\n  let mut s = S { a: x };\n  s.b = 1u8;\n  s.a\n}\n"),
+    ("unknown enum", "pub fn main(x: u8) -> u8 {\n  let e = Nope::A;\n  x\n}\n"),
+    ("unknown variant", "enum E { A, B(u8) }\npub fn main(x: u8) -> u8 {\n  let e = E::C;\n  x\n}\n"),
+    ("unit variant with fields", "enum E { A, B(u8) }\npub fn main(x: u8) -> u8 {\n  let e = E::A(x);\n  x\n}\n"),
+    ("tuple variant without fields", "enum E { A, B(u8) }\npub fn main(x: u8) -> u8 {\n  let e = E::B;\n  x\n}\n"),
+    ("tuple variant too many fields", "enum E { A, B(u8) }\npub fn main(x: u8) -> u8 {\n  let e = E::B(x, x);\n  x\n}\n"),
+    ("tuple variant too few fields", "enum E { A, B(u8, u8) }\npub fn main(x: u8) -> u8 {\n  let e = E::B(x);\n  x\n}\n"),
+    ("tuple variant wrong field type", "enum E { A, B(u8) }\npub fn main(x: u8) -> u8 {\n  let e = E::B(true);\n  x\n}\n"),
+    ("enum pattern arity", "enum E { A, B(u8) }\npub fn main(e: E, x: u8) -> u8 {\n  match e {\n    E::A => x,\n    E::B(a, b) => a,\n  }\n}\n"),
+    ("enum pattern of another enum", "enum E { A, B(u8) }\nenum F { A, B(u8) }\npub fn main(e: E, x: u8) -> u8 {\n  match e {\n    F::A => x,\n    F::B(a) => a,\n  }\n}\n"),
+    ("struct pattern of another struct", "struct S { a: u8 }\nstruct T { a: u8 }\npub fn main(s: S, x: u8) -> u8 {\n  let T { a } = s;\n  a + x\n}\n"),
+    ("number pattern on bool", "pub fn main(b: bool, x: u8) -> u8 {\n  match b {\n    0u8 => x,\n    _ => x,\n  }\n}\n"),
+    ("bool pattern on number", "pub fn main(x: u8) -> u8 {\n  match x {\n    true => x,\n    _ => x,\n  }\n}\n"),
+    ("tuple pattern arity", "pub fn main(x: u8) -> u8 {\n  let (a, b, c) = (x, x);\n  a\n}\n"),
+    ("fn body ends without value", "pub fn main(x: u8) -> u8 {\n  let y = x;\n}\n"),
+    ("private fn body ends without value", "fn f(x: u8) -> u8 {\n  let y = x;\n}\npub fn main(x: u8) -> u8 {\n  f(x)\n}\n"),
+    ("unknown type in parameter", "pub fn main(x: Nope) -> u8 {\n  1u8\n}\n"),
+    ("unknown type in return", "pub fn main(x: u8) -> Nope {\n  x\n}\n"),
+    ("unknown type in struct field", "struct S { a: Nope }\npub fn main(x: u8) -> u8 {\n  x\n}\n"),
+    ("unknown type in enum field", "enum E { A(Nope) }\npub fn main(x: u8) -> u8 {\n  x\n}\n"),
+    ("unknown type in let annotation", "pub fn main(x: u8) -> u8 {\n  let y: Nope = x;\n  x\n}\n"),
+    ("cast to bool from tuple", "pub fn main(x: u8) -> bool {\n  (x, x) as bool\n}\n"),
+    ("cast to struct", "struct S { a: u8 }\npub fn main(x: u8) -> u8 {\n  let s = x as S;\n  x\n}\n"),
+    ("negation of bool", "pub fn main(b: bool, x: u8) -> u8 {\n  if -b { x } else { x }\n}\n"),
+    ("negation of unsigned", "pub fn main(x: u8) -> u8 {\n  -x\n}\n"),
+    ("not of tuple", "pub fn main(x: u8) -> u8 {\n  let t = !(x, x);\n  x\n}\n"),
+    ("call of unknown fn", "pub fn main(x: u8) -> u8 {\n  nope(x)\n}\n"),
+    ("call of a variable", "pub fn main(x: u8) -> u8 {\n  x(x)\n}\n"),
+    ("for over a number", "pub fn main(x: u8) -> u8 {\n  let mut s = x;\n  for i in x {\n    s = s + 1u8;\n  }\n  s\n}\n"),
+    ("duplicate parameter", "pub fn main(x: u8, x: u8) -> u8 {\n  x\n}\n"),
+    ("shift amount u16", "pub fn main(x: u8, s: u16) -> u8 {\n  x << s\n}\n"),
+    ("shift of bool", "pub fn main(b: bool, s: u8) -> bool {\n  b << s\n}\n"),
+    ("comparison of number with bool", "pub fn main(x: u8, b: bool) -> bool {\n  x < b\n}\n"),
+    ("equality of different widths", "pub fn main(x: u8, y: u16) -> bool {\n  x == y\n}\n"),
+    ("array literal mixed types", "pub fn main(x: u8, b: bool) -> u8 {\n  let a = [x, b];\n  x\n}\n"),
+    ("array literal mixed widths", "pub fn main(x: u8, y: u16) -> u8 {\n  let a = [x, y];\n  x\n}\n"),
+    ("if without else yields value", "pub fn main(x: u8, b: bool) -> u8 {\n  let y = if b { x };\n  x\n}\n"),
+    ("join_iter one argument", concat_jt!("  let mut s = x;\n  for (p, q) in join_iter(a) {\n    s = s + 1u8;\n  }\n  s\n}\n")),
+    ("join_iter three arguments", concat_jt!("  let mut s = x;\n  for (p, q) in join_iter(a, b, a) {\n    s = s + 1u8;\n  }\n  s\n}\n")),
+    ("join_iter second is a number", concat_jt!("  let mut s = x;\n  for (p, q) in join_iter(a, x) {\n    s = s + 1u8;\n  }\n  s\n}\n")),
+    ("join_iter first is a number", concat_jt!("  let mut s = x;\n  for (p, q) in join_iter(x, a) {\n    s = s + 1u8;\n  }\n  s\n}\n")),
+    ("join_iter over non-tuple elements", concat_jt!("  let mut s = x;\n  for (p, q) in join_iter(k, k) {\n    s = s + 1u8;\n  }\n  s\n}\n")),
+    ("join_iter key types differ", concat_jt!("  let mut s = x;\n  for (p, q) in join_iter(a, w) {\n    s = s + 1u8;\n  }\n  s\n}\n")),
+    ("join_iter refutable pattern", concat_jt!("  let mut s = x;\n  for ((0u8, p), q) in join_iter(a, b) {\n    s = s + 1u8;\n  }\n  s\n}\n")),
+    ("join one argument", concat_jt!("  let j = join(a);\n  x\n}\n")),
+    ("join three arguments", concat_jt!("  let j = join(a, b, a);\n  x\n}\n")),
+    ("join second is a number", concat_jt!("  let j = join(a, x);\n  x\n}\n")),
+    ("join first is a number", concat_jt!("  let j = join(x, a);\n  x\n}\n")),
+    ("join tuple rows with plain keys", concat_jt!("  let j = join(a, k);\n  x\n}\n")),
+    ("join plain keys with tuple rows", concat_jt!("  let j = join(k, a);\n  x\n}\n")),
+    ("join key types differ", concat_jt!("  let j = join(a, w);\n  x\n}\n")),
+    ("join plain key types differ", "pub fn main(k: [u8; 2], l: [u16; 2], x: u8) -> u8 {\n  let j = join(k, l);\n  x\n}\n"),
+];
+
 fn zq() -> Expr {
     var("zq")
 }
@@ -1089,6 +1169,30 @@ pub fn run(tier: Tier) -> i32 {
             e.2 += v.2;
         }
     });
+    // hand-written ill-typed programs for the static rules that no tree mutation reaches (constant
+    // definitions, the join built-ins, array sizes, accessors, enum literals): each must be rejected
+    {
+        let mut e = (0u64, 0u64, 0u64);
+        for (name, src) in ILL_TYPED_TEXTS {
+            e.0 += 1;
+            set_context(src);
+            let case = json!({"kind": "ill-typed-text", "name": name, "source": src});
+            let site = format!("N/IllTypedText/{name}");
+            match catch(|| garble_lang::check(src).map(|_| ())) {
+                Err(p) => {
+                    coll.push(Violation::new("C17", site.clone(), "checker-rust-panic", "", case.clone(), p.clone()));
+                    coll.push(Violation::new("C07", site, "rust-panic", "", case, p));
+                }
+                Ok(Ok(())) => coll.push(Violation::new("C17", site, "ill-typed-accepted", "", case, "accepted by the type checker")),
+                Ok(Err(garble_lang::Error::CompileTimeError(garble_lang::CompileTimeError::TypeError(errs)))) if !errs.is_empty() => e.1 += 1,
+                Ok(Err(other)) => {
+                    e.2 += 1;
+                    coll.push(Violation::new("C17", site, "harness-text-not-a-type-error", "", case, format!("{other:?}")));
+                }
+            }
+        }
+        per_rule.lock().unwrap().insert("IllTypedText".into(), e);
+    }
     // constants are in scope only after their definition: every identifier in a constant
     // expression replaced by every constant name; a name that is not defined earlier must be rejected
     {
